@@ -280,6 +280,11 @@ func (msg *MessageAuth) FromBytes(src []byte) error {
 		chunks = append(chunks, chunk)
 	}
 
+	// The last chunk ends the message: bytes behind it are not part of it.
+	if chunk == nil || l != p+2+int(chunk.Length) {
+		return ErrIncorrectSourceBytes
+	}
+
 	return msg.FromChunks(chunks)
 }
 
